@@ -10,7 +10,7 @@ EXPLANATION = ("Static MIR rules: (R07.1) every construction of EncryptionConfig
                "which AesGcm256::encrypt was called after its last write, or a tag from renew_cipher/into_tag; the writer stack puts the "
                "encryption layer under the ENCRYPT test and only the header is written to the raw destination before; (R07.5) encrypt_parameters "
                "is set only from the Ok(Some(key)) payload of retrieve_key, load_persistent returns Ok only if it is set, and the key loop exits "
-               "early only on success; (R07.6) the recipient list only grows; (R07.7) the library never rewrites the caller's layer set: the field is stored only by its setters and library code calls set_layers only with `layers_enabled | X`; (R07.8) the key retrieve_key returns is the plaintext of one entry, handed out on the edge where that entry's tag compared equal (decrypt-site rule of R03.1). Decides provenance/shape, not the runtime bytes.")
+               "early only on success; (R07.6) the recipient list only grows; (R07.7) the library never rewrites the caller's layer set: the field is stored only by its setters and library code calls set_layers only with `layers_enabled | X`; (R07.9) the header (one wrapped key per recipient) is deserialised under BINCODE_MAX_DESERIALIZE, the limit of the rest of the format; (R07.8) the key retrieve_key returns is the plaintext of one entry, handed out on the edge where that entry's tag compared equal (decrypt-site rule of R03.1). Decides provenance/shape, not the runtime bytes.")
 TRUSTED = ['rustc MIR', 'rand / rand_chacha / getrandom (from_os_rng is OS-seeded)', 'x25519-dalek']
 ASSUMPTIONS = ['uniqueness of OS randomness across processes is a property of the OS generator', 'absence of plaintext in the output bytes is not decided (runtime)']
 
